@@ -165,7 +165,7 @@ fn enum_short(_t: Tier, shard: usize, n: usize, f: &mut dyn FnMut(Bytes) -> bool
 
 fn enum_bodies(t: Tier, shard: usize, n: usize, f: &mut dyn FnMut(Bytes) -> bool) {
     const A: [u8; 12] = [0, 1, 2, 3, 12, 13, 0x3f, 0x40, 0x80, 0xc0, 0xff, b'a'];
-    let maxlen = t.pick(5, 7);
+    let maxlen = t.pick(6, 7);
     let headers: [[u8; 12]; 3] = [
         [0, 0, 0, 0, 0, 1, 0, 0, 0, 0, 0, 0],
         [0, 0, 0x80, 0, 0, 0, 0, 1, 0, 0, 0, 0],
@@ -404,7 +404,7 @@ fn check_mutated(input: &Mutated, case: &mut Case) -> Result<(), Fail> {
 pub fn def() -> CheckDef {
     CheckDef {
         id: "C01",
-        rule: "byte strings fed to Packet::parse and to the 8 header-peek functions under panic capture, a per-thread heap meter (bound 64 KiB + 1024*len; hard cap 1 GiB) and a thread-CPU-time watchdog (5 s, confirmed at 20 s): (1) every truncation and every single-byte perturbation {-1,+1,0,0xff,^0x80,|0xc0,&0x3f} plus section-count edits of reference encodings of all 40 types/unknown/NULL/empty in single and multi-record, plain and compressed form, OPT at each additional position; (2) all buffers of length 0..=4 over 7 symbols and lengths 5..=13; (3) 3 fixed headers x all bodies of length <= 5 (7 thorough) over a 12-symbol alphabet; (4) generated pointer graphs (chains, self/forward/absolute pointers, up to 64 KiB); (5) reference encodings with random compression and 0..8 random mutations. Non-trivial = at least a 12-byte header with Z clear (the parser reaches the sections); distinct by hash of the input",
+        rule: "byte strings fed to Packet::parse and to the 8 header-peek functions under panic capture, a per-thread heap meter (bound 64 KiB + 1024*len; hard cap 1 GiB) and a thread-CPU-time watchdog (5 s, confirmed at 20 s): (1) every truncation and every single-byte perturbation {-1,+1,0,0xff,^0x80,|0xc0,&0x3f} plus section-count edits of reference encodings of all 40 types/unknown/NULL/empty in single and multi-record, plain and compressed form, OPT at each additional position; (2) all buffers of length 0..=4 over 7 symbols and lengths 5..=13; (3) 3 fixed headers x all bodies of length <= 6 (7 thorough) over a 12-symbol alphabet; (4) generated pointer graphs (chains, self/forward/absolute pointers, up to 64 KiB); (5) reference encodings with random compression and 0..8 random mutations. Non-trivial = at least a 12-byte header with Z clear (the parser reaches the sections); distinct by hash of the input",
         assumptions: vec![
             "time is asserted only coarsely (CPU watchdog): the decoder's cost is bounded by the backwards-only pointer rule and the 255-byte name budget, measured maxima are reported under coverage.maxima",
             "heap bound calibrated on the densest legitimate input (a 2-byte pointer expanding to 127 labels: ~515 heap bytes per input byte)",
@@ -414,8 +414,8 @@ pub fn def() -> CheckDef {
             Box::new(EnumSection { name: "cut-perturb", rule: "truncations and perturbations of reference encodings", enumerate: enum_cut_perturb, check: check_bytes, exhaustive: true }),
             Box::new(EnumSection { name: "short", rule: "all short buffers", enumerate: enum_short, check: check_bytes, exhaustive: true }),
             Box::new(EnumSection { name: "bodies", rule: "bounded-exhaustive bodies", enumerate: enum_bodies, check: check_bytes, exhaustive: true }),
-            Box::new(PropSection { name: "graphs", rule: "pointer graphs", strategy: graph_strategy, cases: (20_000, 400_000), check: check_graph }),
-            Box::new(PropSection { name: "mutated", rule: "mutated reference encodings", strategy: mutated_strategy, cases: (100_000, 5_000_000), check: check_mutated }),
+            Box::new(PropSection { name: "graphs", rule: "pointer graphs", strategy: graph_strategy, cases: (100_000, 1_000_000), check: check_graph }),
+            Box::new(PropSection { name: "mutated", rule: "mutated reference encodings", strategy: mutated_strategy, cases: (400_000, 8_000_000), check: check_mutated }),
         ],
     }
 }
